@@ -11,6 +11,7 @@ Rewrites (one site at a time, applied to the source text):
   EQSWAP   `a == b` -> `b == a` (also !=)
   AUGEXP   `x += e` -> `x = x + e` for plain names
   PARENS   the test of an `if` / `while` wrapped in redundant parentheses
+  ALIAS    an attribute path used at least twice (`self.machine.events`) bound to a new local at the top of the function
 
 usage: twins.py Cnn [--kinds K ...] [--show N]
 """
@@ -76,6 +77,40 @@ def twins_in(func_node, btext, offs):
                 if isinstance(n, ast.ExceptHandler) and n.name == name:
                     n.name = new
             out.append(("RENAME", s, e, _indent(_u(fn2), col), func_node.lineno, "rename local %s" % name))
+    # ALIAS: an attribute-only access path used at least twice (`self.machine.events`) bound to a new local at the top
+    if not nested:
+        from sa.alpha import _stores_in
+        store_texts = {ast.unparse(t) for _n, t in _stores_in(func_node)}
+        count = {}
+        for n in ast.walk(func_node):
+            if isinstance(n, ast.Attribute) and isinstance(n.ctx, ast.Load) and isinstance(n.value, ast.Attribute):
+                base = n
+                while isinstance(base, ast.Attribute):
+                    base = base.value
+                if isinstance(base, ast.Name) and base.id == "self":
+                    count[ast.unparse(n)] = count.get(ast.unparse(n), 0) + 1
+        k = 0
+        for text, c in sorted(count.items(), key=lambda kv: (-kv[1], kv[0])):
+            if c < 2 or k >= 2:
+                continue
+            if any(text == t or text.startswith(t + ".") or text.startswith(t + "[") for t in store_texts):
+                continue
+            if any(isinstance(x, ast.Name) and x.id == "alias_" for x in ast.walk(func_node)):
+                continue
+            k += 1
+            fn2 = copy.deepcopy(func_node)
+
+            class _Al(ast.NodeTransformer):
+                def visit_Attribute(self, node):
+                    if isinstance(node.ctx, ast.Load) and ast.unparse(node) == text:
+                        return ast.copy_location(ast.Name(id="alias_", ctx=ast.Load()), node)
+                    return self.generic_visit(node)
+            fn2 = _Al().visit(fn2)
+            bind = ast.Assign(targets=[ast.Name(id="alias_", ctx=ast.Store())], value=ast.parse(text, mode="eval").body, lineno=0, col_offset=0)
+            pos = 1 if has_doc else 0
+            fn2.body.insert(pos, bind)
+            ast.fix_missing_locations(fn2)
+            out.append(("ALIAS", s, e, _indent(_u(fn2), col), func_node.lineno, "alias %s" % text))
     for n in ast.walk(func_node):
         if isinstance(n, ast.If) and n.orelse and not (len(n.orelse) == 1 and isinstance(n.orelse[0], ast.If)):
             m = ast.If(test=ast.UnaryOp(op=ast.Not(), operand=n.test), body=n.orelse, orelse=n.body)
